@@ -130,35 +130,51 @@ func mapOrderAxis(f *core.Flags, r *core.Result, sc Script, only *replayCfg, ite
 	}
 	r.Extra["max_multibucket_choice_points_"+sc.Name] = float64(multi)
 	all := f.Tier == "thorough"
-	for i, cp := range log0 {
-		for _, alt := range alternatives(cp, all) {
-			mine := f.Replay == "" && f.Mine(*item)
-			*item++
-			if f.Replay != "" {
-				mine = only.Axis == "maporder" && len(only.Dev) == 2 && only.Dev[0] == i && uintptr(only.Dev[1]) == alt
+	// work items: alternative rank outermost so that a run cut short by the deadline has still
+	// deviated every choice point once before any gets its second alternative
+	type itemT struct {
+		i   int
+		alt uintptr
+	}
+	var items []itemT
+	for rank := 0; rank < 12; rank++ {
+		for i, cp := range log0 {
+			alts := alternatives(cp, all)
+			if rank < len(alts) {
+				items = append(items, itemT{i, alts[rank]})
 			}
-			if !mine {
-				continue
+		}
+	}
+	r.Extra["sum_map_order_items_"+sc.Name] = float64(0)
+	for _, it := range items {
+		i, alt, cp := it.i, it.alt, log0[it.i]
+		mine := f.Replay == "" && f.Mine(*item)
+		*item++
+		if f.Replay != "" {
+			mine = only.Axis == "maporder" && len(only.Dev) == 2 && only.Dev[0] == i && uintptr(only.Dev[1]) == alt
+		}
+		if !mine {
+			continue
+		}
+		r.Extra["sum_map_order_items_"+sc.Name] = r.Extra["sum_map_order_items_"+sc.Name].(float64) + 1
+		if f.Expired() {
+			r.Exhaustive = false
+			continue
+		}
+		got, _ := runWithDeviation(sc, i, alt)
+		r.Transitions += int64(len(got) * 3)
+		r.Traces++
+		r.Vacuity["map_order_deviations_executed"]++
+		for bi := range got {
+			if bi >= len(ref) {
+				break
 			}
-			if f.Expired() {
-				r.Exhaustive = false
-				return
-			}
-			got, _ := runWithDeviation(sc, i, alt)
-			r.Transitions += int64(len(got) * 3)
-			r.Traces++
-			r.Vacuity["map_order_deviations_executed"]++
-			for bi := range got {
-				if bi >= len(ref) {
-					break
-				}
-				if d := diffSteps(ref[bi], got[bi], false); d != "" {
-					r.AddViolation(core.Violation{Property: f.Prop, Assertion: "c19.map-iteration-order-independent",
-						Signature: fmt.Sprintf("%s|block %d|%s", sc.Name, bi, firstDiffStep(ref[bi], got[bi])),
-						Detail: fmt.Sprintf("choice point %d (map with %d entries, %d bucket bits) started at %d instead of 0: %s", i, cp.Count, cp.B, alt, d),
-						Replay: replayCfg{Script: sc.Name, Axis: "maporder", Dev: []int{i, int(alt)}}})
-					break
-				}
+			if d := diffSteps(ref[bi], got[bi], false); d != "" {
+				r.AddViolation(core.Violation{Property: f.Prop, Assertion: "c19.map-iteration-order-independent",
+					Signature: fmt.Sprintf("%s|block %d|%s", sc.Name, bi, firstDiffStep(ref[bi], got[bi])),
+					Detail: fmt.Sprintf("choice point %d (map with %d entries, %d bucket bits) started at %d instead of 0: %s", i, cp.Count, cp.B, alt, d),
+					Replay: replayCfg{Script: sc.Name, Axis: "maporder", Dev: []int{i, int(alt)}}})
+				break
 			}
 		}
 	}
